@@ -100,8 +100,8 @@ func Refresh() *app.Res {
 
 // Faulty: an external function that fails for some client input (a refused
 // PIN): the VM raises LOADFAIL and goes to the catch node with the function's
-// error as the page's error prefix. Selectors: 1 to the prompt, any input is
-// checked, 0 back / to the top.
+// error as the page's error prefix. Any input at the entry node is checked;
+// then 0 to the top, 1 back.
 func Faulty() *app.Res {
 	rs := app.NewRes()
 	rs.Funcs["verify"] = func(ctx context.Context, sym string, input []byte) (resource.Result, error) {
@@ -111,9 +111,9 @@ func Faulty() *app.Res {
 		return resource.Result{Content: "ok"}, nil
 	}
 	rs.Funcs["tip"] = app.Static("tip")
-	rs.Node("root", "root", app.Code().MOut("pin", "1").Halt().InCmp("pin", "1").Bytes())
-	rs.Node("pin", "pin? {{.tip}}", app.Code().Load("tip", 8).Map("tip").Halt().InCmp("check", "*").Bytes())
-	rs.Node("check", "checked {{.verify}}", app.Code().Load("verify", 8).Map("verify").MOut("top", "0").MOut("again", "1").Halt().
+	rs.Funcs["extra"] = app.Static("xy") // a second symbol on the same level
+	rs.Node("root", "pin? {{.tip}}", app.Code().Load("tip", 8).Map("tip").Halt().InCmp("check", "*").Bytes())
+	rs.Node("check", "checked {{.verify}}", app.Code().Load("verify", 8).Load("extra", 8).Map("verify").MOut("top", "0").MOut("again", "1").Halt().
 		InCmp("^", "0").InCmp("_", "1").Bytes())
 	rs.Node("_catch", "oops", app.Code().MOut("back", "0").Halt().InCmp("_", "*").Bytes())
 	return rs
